@@ -39,7 +39,7 @@ def dispatch (f : List String) : Obs × Option Obs :=
                   match dispatchCli f with
                   | some r => r
                   | none =>
-                    match dispatchX f with
+                    match dispatchXG f with
                     | some r => r
                     | none => ([("bad-op", "1")], none)
 
